@@ -50,9 +50,9 @@ SCOPES = {
         (dict(NFiles=1, SkipChoices={fs()}, SuffixChoices={False, True}, MaxRaise=3, AllowDie=True),
          "one file, up to three raised faults, death anywhere", LEVELS),
         (dict(NFiles=2, SkipChoices={fs(), fs(1), fs(2)}, SuffixChoices={False, True}, MaxRaise=2, AllowDie=True),
-         "two files, any one skipped, two raised faults, death anywhere", LEVELS),
+         "two files, any one skipped, two raised faults, death anywhere", ("safe", "paths")),
         (dict(NFiles=3, SkipChoices={fs(), fs(2)}, SuffixChoices={False, True}, MaxRaise=1, AllowDie=True),
-         "three files, one raised fault, death anywhere", LEVELS),
+         "three files, one raised fault, death anywhere", ("safe", "persist")),
     ],
 }
 MODEL = dict(NFiles=2, SkipChoices={fs(), fs(1), fs(2)}, SuffixChoices={False, True}, MaxRaise=2, AllowDie=True)
